@@ -490,6 +490,33 @@ def functor_tables(repo, w):
             fb = function_body(body, rx)
             ps = _paths(_parse_stmts(fb))
             rows.append((name + "::" + fn, [(c, a) for c, a, _ in ps]))
+    conds = []
+    for src, name in ((ss, "reader_some"), (ss, "writer_some"), (ss, "reader_all"), (ss, "writer_all"), (ac, "async_acceptor")):
+        body = function_body(src, r"struct\s+" + name + r"\b[^{;]*\{")
+        fb = function_body(body, r"void\s+operator\(\)\s*\(\s*system::error_code\s+const\s*&\s*e\s*\)\s*\{")
+        cs = []
+        for m in re.finditer(r"\bif\s*\(", fb):
+            k = _match(fb, m.end() - 1, "(", ")")
+            cs.append(re.sub(r"\s+", "", fb[m.end():k]))
+        conds.append((name, cs))
+    w("/-- the conditions of the if statements of the functors' operator() (white space removed), in source order: which")
+    w("    outcome of the read/write/accept re-arms and which completes -/")
+    w("def functorConds : List (String × List String) := [")
+    w(",\n".join(f"  ({lean_str(n)}, [" + ", ".join(lean_str(c) for c in cs) + "])" for n, cs in conds))
+    w("]\n")
+    dev = prep("booster/lib/aio/src/basic_io_device.cpp")
+    cb = function_body(dev, r"void\s+basic_io_device::close\s*\(\s*system::error_code\s*&\s*e\s*\)\s*\{")
+    if not re.fullmatch(r"\s*if\s*\(\s*fd_\s*==\s*invalid_socket\s*\)\s*return\s*;\s*if\s*\(\s*has_io_service\(\)\s*\)\s*cancel\(\)\s*;\s*"
+                        r"if\s*\(\s*!owner_\s*\)\s*return\s*;\s*if\s*\(\s*close_file_descriptor\(fd_\)\s*\)\s*e\s*=\s*geterror\(\)\s*;\s*"
+                        r"fd_\s*=\s*invalid_socket\s*;\s*nonblocking_was_set_\s*=\s*false\s*;\s*", cb):
+        raise Untranslatable("basic_io_device::close(error_code&): expected `if(fd_==invalid) return; if(has_io_service()) cancel(); "
+                             "if(!owner_) return; close; fd_=invalid; …` (pending waits are cancelled BEFORE the ownership test)")
+    for fn in ("attach", "assign"):
+        ab = function_body(dev, r"void\s+basic_io_device::" + fn + r"\s*\(\s*native_type\s+fd\s*\)\s*\{")
+        if not re.match(r"\s*system::error_code\s+e\s*;\s*close\(e\)\s*;\s*fd_\s*=\s*fd\s*;", ab):
+            raise Untranslatable("basic_io_device::" + fn + ": close(e) before taking the new descriptor")
+    w("/-- basic_io_device::close cancels the pending waits before testing ownership; attach/assign close first (shape verified) -/")
+    w("def closeCancelsBeforeOwnerTest : Bool := true\n")
     w("/-- completion functors of stream_socket.cpp / acceptor.cpp: for every path through the function (if/else tree, early")
     w("    returns): (user handler called or posted, waits re-armed / continuation restarted) -/")
     w("def functorPaths : List (String × List (Nat × Nat)) := [")
